@@ -1,6 +1,8 @@
 """Replay of failed deductive obligations of C01 on the real code.  Frame obligations: the method is called on sample tables and the
-receiver (and operands) are compared, cell by cell and column object by column object, before and after the call."""
+receiver (and operands) are compared, cell by cell and column object by column object, before and after the call.  Rows + headers
+constructor and integer-list selection: fixed native batteries of the clause family (all small shapes), oracle = the list of rows."""
 import copy
+import itertools
 
 
 def _snap(d):
@@ -25,8 +27,110 @@ CALLS = {
 }
 
 
+def _cols(d):
+    return {k: list(v) for k, v in dict(d).items()}
+
+
+def rows_headers_battery():
+    """dictable(rows, names) for n = 0..3 rows of m = 0..3 cells, names as a list / as dict_keys: exactly the named columns, column p lists row[i][p]"""
+    from pyg_base import dictable
+    names_all = ['a', 'b', 'c']
+    count = 0
+    for n in range(4):
+        for m in range(4):
+            rows = [tuple(10 * i + p if (i + p) % 3 else None for p in range(m)) for i in range(n)]
+            names = names_all[:m]
+            for how, cols in (('list', list(names)), ('dict_keys', dict.fromkeys(names).keys())):
+                count += 1
+                what = 'dictable(%r, %s %r)' % (rows, how, names)
+                try:
+                    d = dictable([tuple(r) for r in rows], cols)
+                except Exception as e:      # noqa
+                    return dict(fails=True, detail='%s raised %s: %s' % (what, type(e).__name__, str(e)[:120]))
+                got = _cols(d)
+                want = {names[p]: [rows[i][p] for i in range(n)] for p in range(m)}
+                if got != want or list(got) != list(want):
+                    return dict(fails=True, detail='%s has the columns %r, expected %r (column p lists row[i][p])' % (what, got, want))
+    return dict(fails=False, detail='%d native constructions from rows + headers agree with the list of rows' % count)
+
+
+def getitem_ints_battery():
+    """d[list of ints] on tables with 0..3 rows and 0..2 columns, index lists of length 1..3 over -4..4: IndexError iff some index is outside
+    -len(d) .. len(d)-1, else all columns, row j = row item[j] (negative from the end), receiver unchanged"""
+    from pyg_base import dictable
+    count = 0
+    for ncols in (0, 1, 2):
+        for n in range(4):
+            if ncols == 0 and n > 0:
+                continue
+            base = {c: [10 * i + k if (i + k) % 3 else None for i in range(n)] for k, c in enumerate('ab'[:ncols])}
+            for L in (1, 2, 3):
+                pool = range(-4, 5) if L < 3 else (-n - 1, -1, 0, n - 1, n)
+                for item in itertools.product(pool, repeat=L):
+                    item = list(item)
+                    count += 1
+                    d = dictable(**{c: list(v) for c, v in base.items()}) if ncols else dictable()
+                    before, ids = _cols(d), {c: id(v) for c, v in dict(d).items()}
+                    what = 'dictable(%r)[%r]' % (base, item)
+                    ok_idx = all(-n <= i < n for i in item)
+                    try:
+                        r = d[item]
+                    except IndexError:
+                        if ok_idx:
+                            return dict(fails=True, detail='%s raised IndexError although every index is within -%d .. %d' % (what, n, n - 1))
+                        r = None
+                    except Exception as e:      # noqa
+                        return dict(fails=True, detail='%s raised %s: %s' % (what, type(e).__name__, str(e)[:120]))
+                    else:
+                        if not ok_idx:
+                            return dict(fails=True, detail='%s returned %r although an index is outside -%d .. %d (IndexError expected)' % (what, _cols(r), n, n - 1))
+                        want = {c: [v[i] for i in item] for c, v in base.items()}
+                        if _cols(r) != want or list(_cols(r)) != list(want) or len(r) != len(item):
+                            return dict(fails=True, detail='%s is %r, expected %r (row j = row item[j] of the receiver)' % (what, _cols(r), want))
+                    if _cols(d) != before or {c: id(v) for c, v in dict(d).items()} != ids:
+                        return dict(fails=True, detail='%s changed its receiver from %r to %r' % (what, before, _cols(d)))
+    return dict(fails=False, detail='%d native integer-list selections agree with the list of rows' % count)
+
+
+def record_battery():
+    """dictable(one record) over cells None / scalar / lists of length 0..3, two or three keys: ValueError iff two cells have lengths other than 1 that
+    differ; else the keys as columns, all of the common length, a cell of that length as it is, a cell of length 1 repeated"""
+    from pyg_base import dictable, Dict
+    cells = [None, 5, [], [1], [1, 2], [7, 8], [1, None, 3]]
+    count = 0
+    for nk in (1, 2, 3):
+        for combo in itertools.product(cells, repeat=nk):
+            for make in (dict, Dict):
+                rec = make(zip('abc', [list(c) if isinstance(c, list) else c for c in combo]))
+                count += 1
+                what = 'dictable(%s(%r))' % (make.__name__, dict(rec))
+                col = lambda c: list(c) if isinstance(c, list) else [c]
+                lens_ = {len(col(c)) for c in combo} - {1}
+                try:
+                    d = dictable(rec)
+                except ValueError:
+                    if len(lens_) <= 1:
+                        return dict(fails=True, detail='%s raised ValueError although the list cells have one length' % what)
+                    continue
+                except Exception as e:      # noqa
+                    return dict(fails=True, detail='%s raised %s: %s' % (what, type(e).__name__, str(e)[:120]))
+                if len(lens_) > 1:
+                    return dict(fails=True, detail='%s returned %r although two list cells differ in length (ValueError expected)' % (what, _cols(d)))
+                n = list(lens_)[0] if lens_ else 1
+                want = {k: (col(c) if len(col(c)) == n else col(c) * n) for k, c in zip('abc', combo)}
+                if _cols(d) != want or len(d) != n:
+                    return dict(fails=True, detail='%s has the columns %r, expected %r' % (what, _cols(d), want))
+    return dict(fails=False, detail='%d native constructions from one record agree with the broadcast model' % count)
+
+
 def replay(call):
     from pyg_base import dictable
+    if call.get('kind') == 'record':
+        return record_battery()
+    if call.get('kind') == 'rows_headers':
+        return rows_headers_battery()
+    if call.get('kind') == 'getitem_ints':
+        return getitem_ints_battery()
     if call.get('kind') != 'frame':
         return dict(fails=None, detail='no replay for kind %r' % call.get('kind'))
     parts = call['name'].split('.')
